@@ -166,25 +166,7 @@ pub mod std {
         pub use super::super::{Duration, SystemTime};
     }
     pub mod fs {
-        pub use symrt::env::fs::{create_dir_all, read, remove_file, write, File};
-        use ::std::io;
-        use ::std::path::Path;
-        #[derive(Default)]
-        pub struct OpenOptions {
-            read: bool,
-        }
-        impl OpenOptions {
-            pub fn new() -> Self {
-                OpenOptions { read: false }
-            }
-            pub fn read(&mut self, b: bool) -> &mut Self {
-                self.read = b;
-                self
-            }
-            pub fn open<P: AsRef<Path>>(&self, p: P) -> io::Result<File> {
-                File::open(p)
-            }
-        }
+        pub use symrt::env::fs::*;
     }
 }
 pub mod atomic_write_file {
@@ -201,7 +183,7 @@ pub mod atomic_write_file {
             Options
         }
         pub fn commit(self) -> io::Result<()> {
-            symrt::env::fs::write(&self.path, &self.buf)
+            symrt::env::fs::install(&self.path, &self.buf)
         }
     }
     impl Options {
